@@ -52,9 +52,12 @@ cases = st.fixed_dictionaries({
     "flavour": st.sampled_from(["udp", "twisted"]),
     "mtu": st.one_of(st.just(1500), st.integers(512, 1500), st.sampled_from([512, 600, 1100])),
     "honest": st.integers(1, 2),
-    "blocked": st.lists(st.sampled_from(["10.66.0.1", "10.66.0.2", "10.0.5.9", "10.77.0.1"]), max_size=3, unique=True),
+    # block-list entries are the peer addresses exactly as the socket reports them: IPv4, IPv6, IPv4-mapped IPv6
+    "blocked": st.lists(st.sampled_from(["10.66.0.1", "10.66.0.2", "10.0.5.9", "10.77.0.1", "::ffff:10.66.0.7", "2001:db8::7", "::1",
+                                         "::ffff:10.66.0.1", "fe80::1%eth0"]), max_size=3, unique=True),
     "blocked_client": st.booleans(),
     "ticks": st.lists(st.lists(attack, min_size=0, max_size=6), min_size=5, max_size=40),
+    "tail": st.sampled_from([12, 12, 70, 140]),                # steps (17 ms) after the last attack tick
     "block_late": st.one_of(st.none(), st.integers(0, 30)),    # tick at which the second honest client's IP is put on the block list
 })
 
@@ -339,7 +342,9 @@ def body(ctx, c, bulk=0):
                         ctx.nt(cls + ("mtu=1500" if c["mtu"] == 1500 else "mtu<1500",))
                 ctx.label("%s/%s" % (cls[0], cls[3]))
             step()
-        for _ in range(12):
+        # keep the loop ticking: replies to an address that stays silent may be repeated a message timeout (1 s) later and
+        # until the half-open connection expires (2 s)
+        for _ in range(c.get("tail", 12)):
             step()
         if bc is not None:
             if bc.connected() or w.server_bytes_out.get(bc.laddr, 0):
